@@ -479,7 +479,9 @@ class Module(HasAccessibles):
             try:
                 # apply 'value', 'default' and 'constant' last, as they must be checked
                 # against the datatype with all its configured properties applied
-                for propname, propvalue in sorted(cfg.items(), key=lambda item: item[0] in {'value', 'default', 'constant'}):
+                # ... and a configured datatype first: the datatype properties given with it apply to it
+                for propname, propvalue in sorted(cfg.items(), key=lambda item: (item[0] != 'datatype') + (
+                        item[0] in {'value', 'default', 'constant'})):
                     if propname in {'value', 'default', 'constant'}:
                         # these properties have ValueType(), but should be checked for datatype
                         accessible.datatype(cfg[propname])
